@@ -374,6 +374,20 @@ class C03(SpecProp):
                 hs.append(gen.boundary_history(r, "c03-bnd%d" % i))
             else:
                 hs.append(gen.core_history(r, "c03-%d" % i, weights=w))
+        # read-back over a long life: an edge into a group that is collected early, then hundreds of unrelated collections
+        for j, cyc in enumerate([] if os.environ.get("VERIF_NO_W9") else [270, 300, 530] if tier == "quick" else [270, 300, 530, 1100, 2100]):
+            hs.append(gen.soak_history(rng.fork(), "c03-soak%d" % j, cyc, bystanders=1 + j % 3, witness=True))
+            # and with two rotating groups alive at a time: ids collected earlier are alive again when later groups die
+            hs.append(gen.soak_history(rng.fork(), "c03-soakt%d" % j, cyc, bystanders=j % 4))
+        # data far beyond every small length: 2^16 - 1, 2^16, 2^17 bytes, overwritten by shorter and longer data
+        r = rng.fork()
+        big = lambda l: "V" + bytes(r.below(256) for _ in range(l)).hex()
+        for j, ls in enumerate([] if os.environ.get("VERIF_NO_W9") else [(65535, 65536, 9), (131072, 300, 65537)]):
+            ops = ["NEW g 8", "ADD g 1", "ADD g 2", "BIND g 1 2 %s" % gen.lab_alpha(0), "PUT g 2 V00"]
+            for l in ls:
+                ops += ["PUT g 1 %s" % big(l), "DATA g 1", "DATA g 1", "KIDS g 1"]
+            ops += ["CLONE g h", "DATA h 1", "DATA g 2", "KEYS g", "DATA h 1"]
+            hs.append(History("c03-huge%d" % j, 4, ops, {"cap": 8, "n": 4}))
         return hs
 
     def search(self, rng, tier, diverging):
@@ -433,6 +447,27 @@ class C03(SpecProp):
                 if res != want:
                     return {"reason": "data(%d) = %s, last put says %s" % (v, res, want), "index": i,
                             "expected": want, "observed": res}
+            elif k not in ("KEYS", "NEXT", "SNAP", "LEN"):
+                edges.pop(hd, None)       # a call this oracle does not follow (merge, script, load ...): no claim afterwards
+                continue
+            # what kid()/kids()/data() WOULD answer for every present vertex, read off the state after the call: a write
+            # that is lost silently (e.g. during a call on another vertex) is seen when it happens, not when somebody asks
+            s1 = after.get(hd)
+            if s1 is not None and k in ("ADD", "BIND", "PUT", "DATA", "NEXT"):
+                for v in present(s1):
+                    if v not in edges[hd]:
+                        continue
+                    x = slot(s1, v)
+                    if x["edges"] != edges[hd][v]:
+                        return {"reason": "after %s vertex %d has edges %s, the binds made since it was created say %s"
+                                          % (h.ops[i], v, x["edges"], edges[hd][v]), "index": i,
+                                "expected": str(edges[hd][v])[:400], "observed": str(x["edges"])[:400]}
+                    d = data[hd].get(v)
+                    have = None if x["pers"] == "E" else engine.data_bytes(x["data"])
+                    want = None if d is None else engine.data_bytes(d)
+                    if have != want:
+                        return {"reason": "after %s vertex %d holds data %s, the last put says %s" % (h.ops[i], v, have, want),
+                                "index": i, "expected": str(want)[:400], "observed": str(have)[:400]}
         h.meta["rebinds"] = rebinds
         return None
 
@@ -640,7 +675,7 @@ class C06(SpecProp):
     def generate(self, rng, tier):
         hs = []
         if tier == "quick":
-            plan = [(30, 15)] * 28 + [(200, 4)]
+            plan = [(30, 15)] * 28 + [(200, 4)] + ([] if os.environ.get("VERIF_NO_W9") else [(300, 1), (520, 1)])
         else:
             plan = [(40, 3000), (300, 300), (1000, 60)]
         j = 0
